@@ -46,9 +46,9 @@ class Dag:
         self.p = {}
         for i in range(M):
             for j in range(i):
-                self.p[(i, j)] = g.fresh_bool("par%d_%d" % (i, j))
+                self.p[(i, j)] = g.term(g.fresh_bool("par%d_%d" % (i, j)))
         for i in range(1, M):
-            g.assume(symx.SymBool(g, z3.Or(*[self.p[(i, j)].e for j in range(i)])))
+            g.assume(g.lift(z3.Or(*[self.p[(i, j)] for j in range(i)])))
         self._reach = {}
 
     def reach(self, i, j):
@@ -59,7 +59,7 @@ class Dag:
             return z3.BoolVal(True)
         k = (i, j)
         if k not in self._reach:
-            self._reach[k] = z3.Or(*[z3.And(self.p[(i, m)].e, self.reach(m, j)) for m in range(j, i)])
+            self._reach[k] = z3.Or(*[z3.And(self.p[(i, m)], self.reach(m, j)) for m in range(j, i)])
         return self._reach[k]
 
     def dist(self, s, a):
@@ -102,7 +102,7 @@ class GitSched(graphs.SymSched):
             if a is None or d is None:
                 return "", 128
             self.asked.append(("anc", a, d))
-            return "", (0 if bool(symx.SymBool(g, self.dag.reach(d, a))) else 1)
+            return "", (0 if bool(g.lift(self.dag.reach(d, a))) else 1)
         if argv[:2] == ["rev-list", "--count"]:
             s, a = self.idx(argv[2]), self.idx(argv[3].lstrip("^"))
             if s is None or a is None:
@@ -192,7 +192,7 @@ def make(M, K, flags=FLAGS, modes=GM):
             else:
                 sel = [Z.BoolVal(r is newest()) for r in rows]
                 none_sel = Z.BoolVal(not rows)
-            S = lambda e: symx.SymBool(g, e)
+            S = g.lift
             # ---- cond where reports exactly the selected version
             m = re.search(r"e\.task\.(\d+)\s*$", wres.out)
             w_ts = int(m.group(1)) if (m and wres.status == 0) else None
@@ -311,7 +311,7 @@ def lemma_git_conformance(M):
                 cg = ConcreteEngine(vals)
                 dag = Dag.__new__(Dag)
                 dag.g, dag.M, dag._reach = cg, M, {}
-                dag.p = {k: type("B", (), {"e": z3.BoolVal(v)})() for k, v in par.items()}
+                dag.p = {k: z3.BoolVal(v) for k, v in par.items()}
                 real = Git(pathlib.Path(d))
                 for a in range(M):
                     for b in range(M):
